@@ -13,10 +13,12 @@ import (
 	"encoding/hex"
 	"fmt"
 	"io"
+	"math/bits"
 	"os"
 	"strconv"
 
 	"github.com/ollama/ollama/fs/ggml"
+	"github.com/ollama/ollama/fs/util/bufioutil"
 	"verifharness/cmd/c05/ggdump"
 	"verifharness/hx"
 )
@@ -55,6 +57,13 @@ func (m *memWS) Seek(off int64, whence int) (int64, error) {
 		return 0, fmt.Errorf("negative position")
 	}
 	return m.pos, nil
+}
+
+func polyHash(h uint64, x uint64) uint64 {
+	hi, lo := bits.Mul64(h, 1000003)
+	lo, c := bits.Add64(lo, x+1, 0)
+	_, rem := bits.Div64(hi+c, lo, 2305843009213693951)
+	return rem
 }
 
 func u64(v any) uint64 {
@@ -162,6 +171,77 @@ func main() {
 			}
 			res["dec"] = ggdump.Decode(out, hx.Int(c["max_array"]), via)
 			return res
+		case "block":
+			// Tensor.block() for explicit names
+			out := []string{}
+			for _, n := range hx.UnhexList(c["names"]) {
+				out = append(out, strconv.Itoa(ggml.VerifBlock(ggml.Tensor{Name: n})))
+			}
+			return map[string]any{"blocks": out}
+		case "block_all":
+			// Tensor.block() for prefix + every string of length 0..maxlen over the alphabet (by length, then lexicographic
+			// by alphabet index); digest of the results
+			alpha := []byte(hx.Unhex(c["alpha"]))
+			prefix := hx.Unhex(c["prefix"])
+			h := uint64(7)
+			n := 0
+			var rec func(cur []byte, left int)
+			rec = func(cur []byte, left int) {
+				if left == 0 {
+					n++
+					v := ggml.VerifBlock(ggml.Tensor{Name: prefix + string(cur)})
+					h = polyHash(h, uint64(int64(v))%2305843009213693951)
+					return
+				}
+				for _, a := range alpha {
+					rec(append(cur, a), left-1)
+				}
+			}
+			for l := 0; l <= hx.Int(c["maxlen"]); l++ {
+				rec(nil, l)
+			}
+			return map[string]any{"n": n, "hash": strconv.FormatUint(h, 10)}
+		case "ftype":
+			// type.go: name of a file type number and what ParseFileType makes of that name (-1 = error)
+			t := uint32(u64(c["t"]))
+			name := ggml.VerifFileTypeString(t)
+			parsed := int64(-1)
+			if ft, err := ggml.ParseFileType(name); err == nil {
+				parsed = int64(ft.Value())
+			}
+			tt := ggml.Tensor{Kind: t}
+			return map[string]any{"name": hx.Hex(name), "parsed": strconv.FormatInt(parsed, 10), "tensor_type": hx.Hex(tt.Type())}
+		case "parse":
+			parsed := int64(-1)
+			if ft, err := ggml.ParseFileType(hx.Unhex(c["s"])); err == nil {
+				parsed = int64(ft.Value())
+			}
+			return map[string]any{"parsed": strconv.FormatInt(parsed, 10)}
+		case "bseek":
+			// buffer_seeker.go over a bytes.Reader: io.ReadFull / Seek sequences
+			data, err := hex.DecodeString(c["data"].(string))
+			if err != nil {
+				panic("harness: bad hex")
+			}
+			bs := bufioutil.NewBufferedSeeker(bytes.NewReader(data), hx.Int(c["bufsize"]))
+			res := []any{}
+			for _, o := range c["ops"].([]any) {
+				op := o.([]any)
+				switch op[0] {
+				case "r":
+					buf := make([]byte, hx.Int(op[1]))
+					n, err := io.ReadFull(bs, buf)
+					res = append(res, map[string]any{"b": hex.EncodeToString(buf[:n]), "e": ggdump.ErrClass(err)})
+				case "s":
+					off, err := strconv.ParseInt(op[1].(string), 10, 64)
+					if err != nil {
+						panic("harness: bad offset")
+					}
+					pos, err := bs.Seek(off, hx.Int(op[2]))
+					res = append(res, map[string]any{"p": strconv.FormatInt(pos, 10), "ok": err == nil})
+				}
+			}
+			return map[string]any{"res": res}
 		case "leaf_kind":
 			k := uint32(u64(c["kind"]))
 			return map[string]any{"ts": ggdump.U(ggml.VerifTypeSize(k)), "bs": ggdump.U(ggml.VerifBlockSize(k))}
